@@ -337,6 +337,15 @@ pub fn run(tier: Tier) -> i32 {
             }
         }
     }
+    // unquoted identifiers are ASCII letters, digits and '_' only: letters and digits of other scripts are not
+    // identifier characters (they need the quoted form)
+    for c in ['\u{e9}', '\u{b5}', '\u{b2}', '\u{bd}', '\u{663}', '\u{ff11}', '\u{2167}', '\u{1d49c}', '\u{f1}', '\u{df}', '\u{3a9}', '\u{4e2d}', '\u{aa}', '\u{2160}'] {
+        for tpl in ["a{}", "{}a", "a{}b", "_{}", "a.b{}", "{{a{}: a}}", "a{}.b", "[a{}]", "a{}(b)", "a || b{}"] {
+            let e = tpl.replacen("{}", &c.to_string(), 1).replace("{{", "{").replace("}}", "}");
+            st.states += 1;
+            decide(&e, None, "non-ascii-identifier-characters", &mut st);
+        }
+    }
     // (iii) unquoted identifiers
     let mut s3 = Stats::default();
     char_dfs(&['a', 'Z', '_', '0', '9'], "", 0, tier.pick(3, 4), &mut s3, &mut |s, st| {
